@@ -19,6 +19,11 @@ structure Cfg where
   package : Str := []
   moduleName : Str := []
   pfx : Str := []
+  /-- not configuration: the Unicode tables of Rust `std` (`char::is_lowercase`) that `to_pascal_case`
+  consults since the `fix:` commit 8f4a2d5 (`variantName`).  The rest of this back end is independent of
+  them, so they travel with the configuration instead of being a parameter of every function; the driver
+  sets the field to the run's table (`Main.lean: decodeLang`), the default is the ASCII table. -/
+  U : UnicodeOps := UnicodeOps.ascii
 
 /-- `const INLINE` -/
 def inlineName : Str := s%"JvmInline"
@@ -190,8 +195,8 @@ def renderCase (c : KtCase) : Str :=
   s%": " ++ c.parent ++ c.parentGenerics ++ s%"()\n"
 
 /-- the `variant_name` block (kotlin.rs:337-352) -/
-def variantName (original : Str) : Str :=
-  let n := Rename.toPascal original
+def variantName (U : UnicodeOps) (original : Str) : Str :=
+  let n := Rename.toPascal U original
   match n with
   | c :: _ => if Str.isAsciiDigit c then '_' :: n else n
   | [] => n
@@ -203,7 +208,7 @@ def usedGenerics (e : RustEnum) (fields : List RustField) : List Str :=
 def caseFacts (cfg : Cfg) (e : RustEnum) (contentKey : Str) (v : RustEnumVariant) : Outcome KtCase :=
   let gp := genericSuffix e.genericTypes
   let mk (payload : KtPayload) : KtCase :=
-    { comments := v.comments, serialName := v.id.renamed, name := variantName v.id.original,
+    { comments := v.comments, serialName := v.id.renamed, name := variantName cfg.U v.id.original,
       generics := gp, payload, parent := cfg.pfx ++ e.id.renamed, parentGenerics := gp }
   match v with
   | .unit _ _ => .ok (mk .object)
